@@ -229,10 +229,20 @@ func (f *frame) libCall(callee *ssa.Function, c *ssa.CallCommon, base string, re
 		}
 		return r
 	case "strconv.Itoa", "strconv.FormatInt", "strconv.FormatUint":
-		used("Itoa/FormatInt/FormatUint return a non-empty string that starts with a digit or '-' (result otherwise not modelled)")
+		used("Itoa/FormatInt/FormatUint return a non-empty string that is \"0\" exactly for 0; in base 10 it starts with a digit or '-' and determines the number (decimalOf(result) = number; result otherwise not modelled)")
 		r := f.resultHavoc(base, resT)
 		b0 := fmt.Sprintf("(sbyte %s #x0000000000000000)", r.term)
-		f.assume(fmt.Sprintf("(and (bvugt (slen %s) #x0000000000000000) (or (= %s #x2d) (and (bvuge %s #x30) (bvule %s #x39))))", r.term, b0, b0, b0))
+		f.assume(fmt.Sprintf("(bvugt (slen %s) #x0000000000000000)", r.term))
+		base10 := "true"
+		if callee.Name() != "Itoa" {
+			base10 = fmt.Sprintf("(= %s %s)", arg(1), bvLit(10, 64))
+		}
+		f.assume(fmt.Sprintf("(=> %s (or (= %s #x2d) (and (bvuge %s #x30) (bvule %s #x39))))", base10, b0, b0, b0))
+		// the numeral is "0" exactly for the number zero
+		f.assume(fmt.Sprintf("(= (= %s %s) (= %s %s))", r.term, e.R.strConst("0"), arg(0), bvLit(0, bitsOfSort(e.R.sortOf(c.Args[0].Type())))))
+		// decimal numerals are distinct for distinct numbers
+		e.R.extra("(declare-fun decimal-of (Str) (_ BitVec 64))")
+		f.assume(fmt.Sprintf("(=> %s (= (decimal-of %s) %s))", base10, r.term, arg(0)))
 		return r
 	case "strconv.FormatFloat", "strconv.Quote", "strconv.FormatBool":
 		used("pure formatting function (result contents not modelled; non-empty)")
